@@ -161,19 +161,23 @@ func ruleC16(c *Ctx) {
 	for _, st := range tb.stores[enz] {
 		if _, p, _ := rootAlloc(st.Addr); len(p) == 1 && p[0] == ".CommercialAvailability" {
 			v := tb.T(st.Val)
-			leaves := phiLeaves(v)
 			okTerm = true
-			for _, l := range leaves {
+			want := "extract[2](next(range(" + payload + ")))"
+			sites := topAppendSites(v)
+			if len(sites) != 1 {
+				okTerm = false
+				whyTerm = fmt.Sprintf("%d append sites feed the supplier list, want 1", len(sites))
+			}
+			for _, stt := range sites {
+				el := stt.Elem
+				if !(el.Op == "lookup" && el.Args[1].String() == want && sup != nil && el.Args[0].V == sup.Map) {
+					okTerm = false
+					whyTerm = "appended element is " + short(el.String()) + "; want supplierMap[rune of line[3:]]"
+				}
+			}
+			for _, l := range phiLeaves(v) {
 				switch {
-				case l.isCall("builtin:append"):
-					el := l.Args[1]
-					want := "extract[2](next(range(" + payload + ")))"
-					if !el.contains(func(x *Term) bool {
-						return x.Op == "partial" && x.Args[0].Op == "lookup" && x.Args[0].Args[1].String() == want && sup != nil && x.Args[0].Args[0].V == sup.Map
-					}) {
-						okTerm = false
-						whyTerm = "appended element is " + short(el.String()) + "; want supplierMap[rune of line[3:]]"
-					}
+				case l.Op == "collect" || l.isCall("builtin:append"):
 				case l.Op == "const" && strings.HasPrefix(l.Name, "nil:"):
 				default:
 					okTerm = false
